@@ -44,6 +44,12 @@ def rand_str(rng):
     return out
 
 
+# (what str() gives, truthiness): the worker builds the real object from the text (workers/common.py PY_OBJECTS)
+PY_OBJECTS = [['o', 'True', True], ['o', 'False', False], ['o', '1.5', True], ['o', '0.0', False], ['o', '(1, 2)', True], ['o', '()', False],
+              ['o', "b'x'", True], ['o', "b''", False], ['o', 'set()', False], ['o', '{3}', True], ['o', "('a', ['b'])", True], ['o', 'range(0, 2)', True],
+              ['o', '-7', True], ['o', '(1+2j)', True], ['o', 'frozenset()', False]]
+
+
 def rand_content(rng, depth=0, maxdepth=4, wf=False):
     """JSON-able content tree:
        ["n"] None | ["s", str] | ["o", str, truthy] other object | ["l", items] | ["d", items]
@@ -58,6 +64,9 @@ def rand_content(rng, depth=0, maxdepth=4, wf=False):
         return ['s', rand_str(rng)]
     if k < 0.50:
         j = rng.random()
+        if j < 0.12:
+            # real Python objects that are neither str, list nor dict: rendered with str(), truthiness as Python defines it
+            return rng.choice(PY_OBJECTS)
         if j < 0.5:
             v = rng.randint(0, 1200)
             return ['o', str(v), v != 0]
